@@ -12,7 +12,7 @@ Decided structural clauses:
 Not decided: benefits non-negative, point counts monotone, reported count == distinct evaluations (runtime facts)."""
 import ast
 
-from ..absint import NONNEG, POS, NEG, ZERO, STOP, NONPOS, sadd, smul, sneg, sjoin, is_nonneg
+from ..absint import sign_of, is_nonneg
 from ..cfg import cfg_of, walk_local
 from ..loader import AnalysisError, src
 from ..terms import Terms, terms_of, show, subterms, negate
@@ -27,77 +27,6 @@ EXPLANATION = ("Static analysis of SpatiallyAdaptivBase.continue_adaptive_refine
 BASE = S.BASE
 CAR = BASE + ".continue_adaptive_refinement"
 ARRAYS = ("error_array", "surplus_error_array", "num_point_array")
-
-
-def sign_of(t, assume):
-    """Sign of a value term."""
-    k = t[0]
-    if k == "c":
-        try:
-            v = ast.literal_eval(t[1])
-        except Exception:
-            return STOP
-        if isinstance(v, bool) or v is None or isinstance(v, str):
-            return STOP
-        return POS if v > 0 else (NEG if v < 0 else ZERO)
-    if k == "neg":
-        return sneg(sign_of(t[1], assume))
-    if k == "call":
-        f = t[1]
-        fname = f[2] if f[0] == "a" else (f[1] if f[0] == "n" else None)
-        if fname in ("abs", "absolute", "fabs", "norm", "len", "sqrt", "square", "size"):
-            return NONNEG
-        if fname in ("exp", "cosh"):
-            return POS
-        if fname == "max" and t[2]:
-            ss = [sign_of(a, assume) for a in t[2]]
-            if any(is_nonneg(s) for s in ss) and len(ss) >= 2:
-                return POS if POS in ss else NONNEG
-            if len(ss) == 1:
-                return ss[0] if is_nonneg(ss[0]) else STOP
-            return STOP
-        if fname in ("sum", "prod", "mean", "amax", "amin", "array", "asarray", "float") and t[2]:
-            inner = sign_of(t[2][0], assume)
-            return inner if is_nonneg(inner) else STOP
-        return STOP
-    if k == "op":
-        op, args = t[1], t[2]
-        if op == "Add":
-            r = ZERO
-            for a in args:
-                r = sadd(r, sign_of(a, assume))
-            return r
-        if op == "Mult":
-            r = POS
-            for a in args:
-                r = smul(r, sign_of(a, assume))
-            return r
-        if op == "Sub":
-            return sadd(sign_of(args[0], assume), sneg(sign_of(args[1], assume)))
-        if op == "Div":
-            d = sign_of(args[1], assume)
-            if d in (NONNEG, NONPOS):
-                assume("divisors are non-zero (e.g. len(x) ** (1/norm) with a non-empty x)")
-                d = POS if d == NONNEG else NEG
-            return smul(sign_of(args[0], assume), d)
-        if op == "Pow":
-            b = sign_of(args[0], assume)
-            if b in (POS, NONNEG, ZERO):
-                return b if b != ZERO else NONNEG
-            e = args[1]
-            if e[0] == "c":
-                try:
-                    ev = ast.literal_eval(e[1])
-                    if isinstance(ev, int) and ev % 2 == 0:
-                        return NONNEG
-                except Exception:
-                    pass
-            return STOP
-    if k == "ifexp":
-        return sjoin(sign_of(t[2], assume), sign_of(t[3], assume))
-    if k == "comp":
-        return sign_of(t[2], assume)
-    return STOP
 
 
 def _drop_default_kwargs(prog, t, callee):
